@@ -237,10 +237,40 @@ def part_pysem(sc):
     expect(bad == 0 and rows > 2000, f"PySem agrees with CPython on {rows} non-overflowing rows of {len(metas)} generated programs ({bad} differ)")
 
 
+def part_refinement(sc):
+    """the refinement bindings reject corrupted recordings (drift), accept the genuine ones"""
+    from .drivers import c04, bitblast, c07
+    from .artefact import run_jobs
+    # BoolOpt: real applications of the pattern steps to a few trees; corruption = the post list of ANOTHER tree
+    trees = [{"op": "or", "args": [{"op": "sym", "n": "a"}, {"op": "sym", "n": "b"}, {"op": "sym", "n": "c"}]},
+             {"op": "ite", "args": [{"op": "sym", "n": "a"}, {"op": "sym", "n": "b"}, {"op": "not", "args": [{"op": "sym", "n": "c"}]}]},
+             {"op": "implies", "args": [{"op": "and", "args": [{"op": "sym", "n": "a"}, {"op": "sym", "n": "b"}]}, {"op": "sym", "n": "c"}]}]
+    lists = [{"key": f"t{k}", "origin": "selftest", "inputs": ["a", "b", "c"], "exprs": [["_ret", t]]} for k, t in enumerate(trees)]
+    recs = [r for r in c04.apply_job({"lists": lists}) if r["status"] == "ok" and r["mode"] == "alone" and r["step"] in c04.MODELLED]
+    good = [dict(id=k, inputs=r["inputs"], rets=r["rets"], pre=r["pre"], post=r["post"], step=r["step"]) for k, r in enumerate(recs)]
+    v, _ = tlc.run_cases("Trace_BoolOpt", good, sc)
+    expect(len(good) >= 3 and all(x == "conform" for x in v.values()), f"recorded optimizer steps conform to BoolOpt.tla ({len(good)})")
+    bad = [dict(g, id=k, post=good[(k + 1) % len(good)]["post"]) for k, g in enumerate(good) if good[(k + 1) % len(good)]["post"] != g["post"]
+           and g["step"] not in ("merge_expressions", "apply_cse")]
+    v, _ = tlc.run_cases("Trace_BoolOpt", bad, sc)
+    expect(len(bad) >= 2 and all(x != "conform" for x in v.values()), f"a step recorded with another tree's result is drift for BoolOpt.tla ({len(bad)})")
+    # BitBlast: the real translator on a few cases; corruption = one result bit negated
+    cases = [{"id": k, "case": c} for k, c in enumerate([
+        {"op": "Add", "l": {"k": "sym", "w": 2}, "r": {"k": "sym", "w": 3}}, {"op": "Sub", "l": {"k": "sym", "w": 2}, "r": {"k": "const", "w": 6}},
+        {"op": "Gt", "l": {"k": "sym", "w": 3}, "r": {"k": "sym", "w": 2}}, {"op": "Mult", "l": {"k": "sym", "w": 2}, "r": {"k": "const", "w": 6}}])]
+    recs = bitblast.job({"cases": cases})
+    v, _ = tlc.run_cases("Trace_BitBlast", recs, sc)
+    expect(all(x == "conform" for x in v.values()), "the real integer operators conform to BitBlast.tla")
+    badr = [dict(r, bits=[{"op": "not", "args": [r["bits"][0]]}] + r["bits"][1:]) for r in recs]
+    v, _ = tlc.run_cases("Trace_BitBlast", badr, sc)
+    expect(all(x.startswith("drift") for x in v.values()), "an operator result with one bit negated is drift for BitBlast.tla")
+
+
 def main():
     use_repo()
     with Scratch("selftest") as sc:
         part_binding(sc)
+        part_refinement(sc)
         part_boolsem(sc)
         part_qsim(sc)
         part_pysem(sc)
